@@ -516,6 +516,91 @@ VARIANTS = [
                 raise ValueError(f"value is not unique")
             lst = [val]
         return value""")),
+    # ------------------------------------------------------------------ C01
+    B("C01 to_str returns falsy input unchanged", "C01", "R01a",
+      (TRANS, """    def to_str(self, data, t: Type[str] = str) -> str:
+        if isinstance(data, str):""", """    def to_str(self, data, t: Type[str] = str) -> str:
+        if not data:
+            return data
+        if isinstance(data, str):""")),
+    B("C01 to_array_types guard loosened to any iterable", "C01", "R01a",
+      (TRANS, """    def to_array_types(self, data, t=list):
+        if isinstance(data, t):
+            return data""", """    def to_array_types(self, data, t=list):
+        if isinstance(data, (list, tuple)):
+            return data""")),
+    B("C01 to_float returns int input as is", "C01", "R01a",
+      (TRANS, """        if self.no_explicit_cast:
+            if not isinstance(data, (int, float, Decimal)):
+                raise TypeError
+        else:
+            data = self._attempt_from_number(data)
+
+        return t(data)
+
+    @registry.register(int)""", """        if self.no_explicit_cast:
+            if not isinstance(data, (int, float, Decimal)):
+                raise TypeError
+            return data
+        else:
+            data = self._attempt_from_number(data)
+
+        return t(data)
+
+    @registry.register(int)""")),
+    B("C01 dispatcher shortcut uses isinstance of any class", "C01", "R01a",
+      (TRANS, """        if type(data) == t:
+            # strict equal. not isinstance, like datetime is instance of date
+            return data
+        transformer = self.resolver_transformer(t)""", """        if type(data) == t or type(data).__name__ == getattr(t, '__name__', None):
+            # strict equal. not isinstance, like datetime is instance of date
+            return data
+        transformer = self.resolver_transformer(t)""")),
+    B("C01 tuple surplus appends the raw item", "C01", "R01b",
+      (RULE, """                            result.append(
+                                arg_context.transformer.apply(value[i], options.addition)
+                            )""", """                            arg_context.transformer.apply(value[i], options.addition)
+                            result.append(value[i])""")),
+    B("C01 map parser stores the raw key", "C01", "R01b",
+      (RULE, "            result[key] = val\n        return result", "            result[_key] = val\n        return result")),
+    B("C01 validator result not assigned back", "C01", "R01c",
+      (RULE, "                    value = validator(value, constraint)", "                    validator(value, constraint)")),
+    B("C01 validators skipped for falsy values", "C01", "R01c",
+      (RULE, "        if not options.ignore_constraints:\n            # if options ignore constraints", "        if not options.ignore_constraints and value:\n            # if options ignore constraints")),
+    B("C01 early return for same-origin instances", "C01", "R01c",
+      (RULE, """            try:
+                value = context.transformer.apply(
+                    value, cls.__origin__, func=cls.__origin_transformer__
+                )""", """            if type(value) == cls.__origin__ and not cls.__args__:
+                return value
+            try:
+                value = context.transformer.apply(
+                    value, cls.__origin__, func=cls.__origin_transformer__
+                )""")),
+    B("C01 *args elements appended unparsed", "C01", "R01d",
+      (FUNC, """                arg = self.parse_pos_type(index=i, value=arg, context=context)
+                if unprovided(arg):
+                    continue""", """                parsed = self.parse_pos_type(index=i, value=arg, context=context)
+                if unprovided(parsed):
+                    continue""")),
+    B("C01 data-first stores the raw value on exclusion", "C01", "R01d",
+      (BASE, """            parsed = field.parse_value(value, context=context)
+            if unprovided(parsed):
+                continue
+
+            result[name] = parsed
+
+            if field.dependencies:""", """            parsed = field.parse_value(value, context=context)
+            if unprovided(parsed):
+                if not field.required:
+                    result[name] = value
+                continue
+
+            result[name] = parsed
+
+            if field.dependencies:""")),
+    B("C01 element parser skipped for empty containers", "C01", "R01c",
+      (RULE, "        if cls.__args_parser__:\n            try:", "        if cls.__args_parser__ and not cls.__abstract__:\n            try:")),
     # ------------------------------------------------------------------ benign
     G("benign gt: not value > gt", (RULE, "        if value <= gt:\n            raise ValueError\n        return value",
                                     "        if not value > gt:\n            raise ValueError\n        return value")),
